@@ -1,14 +1,9 @@
-/- Helper lemmas for C06: the scanner finds embedded streams. -/
-import Preflate.Model.Wrappers
+/- C06: the scanner finds embedded streams. Helper lemmas: ScanBase (no panics, equational forms of
+   the header parsers), ScanLoop (loop totality, arrival at a signature), ScanWrap (the parsers on
+   the specification-side wrappers). `Quiet` and `NoPanic` are defined in ScanBase. -/
+import Preflate.Proofs.ScanWrap
 namespace Preflate.Proofs
 open Preflate
-
-/-- no stream accepted at a signature position before `upTo` reaches past `bound`: the bytes in
-    front of the wrapper "do not themselves form an acceptable stream overlapping it" -/
-def Quiet (o : Oracle) (crc : Bytes → Nat) (src : Bytes) (upTo bound : Nat) : Prop :=
-  ∀ i prev sg cs next, i < upTo → scanAt o crc src i prev sg = .ok (some (cs, next)) → next ≤ bound
-
-def NoPanic (o : Oracle) : Prop := ∀ d m, o.verified d ≠ .error (.panic m)
 
 theorem found_zlib (o : Oracle) (crc : Bytes → Nat) (pre suf s : Bytes) (h1 : Nat) (r : Res)
     (hh : h1 ∈ zlibSecond) (hnp : NoPanic o)
@@ -17,7 +12,22 @@ theorem found_zlib (o : Oracle) (crc : Bytes → Nat) (pre suf s : Bytes) (h1 : 
     ∃ before prev after, prev ≤ pre.length ∧
       scan o crc (pre ++ zlibWrap h1 s ++ suf) =
         .ok (before ++ [.literal (pre.length + 2 - prev), .deflate r] ++ after) := by
-  sorry
+  have hsrc : pre ++ zlibWrap h1 s ++ suf = pre ++ (0x78 :: h1 :: (s ++ suf)) := by
+    simp [zlibWrap]
+  rw [hsrc] at hq ⊢
+  refine found_at hnp hq (Nat.le_refl _) (by simp) (sg := .zlib) ?_
+    (fun prev => [.literal (pre.length + 2 - prev), .deflate r]) ?_
+  · have := getD_pre pre (0x78 :: h1 :: (s ++ suf)) 0
+    have := getD_pre pre (0x78 :: h1 :: (s ++ suf)) 1
+    simp only [Nat.add_zero] at *
+    simp only [*]
+    simp only [zlibSecond, List.mem_cons, List.not_mem_nil, or_false] at hh
+    rcases hh with rfl | rfl | rfl | rfl <;> (simp only [List.getD_cons_zero, List.getD_cons_succ]; decide)
+  · intro prev hp
+    refine ⟨pre.length + 2 + r.size, ?_⟩
+    have hd : (pre ++ (0x78 :: h1 :: (s ++ suf))).drop (pre.length + 2) = s ++ suf := by
+      rw [drop_pre]; rfl
+    simp only [scanAt, hd, probe_of_ok hacc, bind, Except.bind, hbig, if_true]
 
 theorem found_gzip (o : Oracle) (crc : Bytes → Nat) (pre suf s : Bytes) (g : GzipFields) (r : Res)
     (hg : g.WF) (hnp : NoPanic o)
@@ -26,7 +36,28 @@ theorem found_gzip (o : Oracle) (crc : Bytes → Nat) (pre suf s : Bytes) (g : G
     ∃ before prev after, prev ≤ pre.length ∧
       scan o crc (pre ++ gzipHeader g ++ s ++ suf) =
         .ok (before ++ [.literal (pre.length + (gzipHeader g).length - prev), .deflate r] ++ after) := by
-  sorry
+  have hsrc : pre ++ gzipHeader g ++ s ++ suf = pre ++ (gzipHeader g ++ (s ++ suf)) := by
+    simp only [List.append_assoc]
+  rw [hsrc] at hq ⊢
+  have hhd : ∃ t, gzipHeader g = 0x1f :: 0x8b :: t := ⟨_, by rw [gzipHeader]; rfl⟩
+  obtain ⟨t, ht⟩ := hhd
+  refine found_at hnp hq (Nat.le_refl _) ?_ (sg := .gzip) ?_
+    (fun prev => [.literal (pre.length + (gzipHeader g).length - prev), .deflate r]) ?_
+  · rw [ht]; simp
+  · have h0 := getD_pre pre (gzipHeader g ++ (s ++ suf)) 0
+    have h1 := getD_pre pre (gzipHeader g ++ (s ++ suf)) 1
+    rw [Nat.add_zero] at h0
+    rw [h0, h1, ht]
+    simp only [List.cons_append, List.getD_cons_zero, List.getD_cons_succ]
+    decide
+  · intro prev hp
+    refine ⟨pre.length + (gzipHeader g).length + r.size, ?_⟩
+    have hd0 : (pre ++ (gzipHeader g ++ (s ++ suf))).drop pre.length = gzipHeader g ++ (s ++ suf) :=
+      List.drop_left
+    have hd : (pre ++ (gzipHeader g ++ (s ++ suf))).drop (pre.length + (gzipHeader g).length) = s ++ suf := by
+      rw [drop_pre, List.drop_left]
+    simp only [scanAt, hd0, probe_of_ok (skipGzipHeader_gzipHeader g hg (s ++ suf)), hd, probe_of_ok hacc,
+      bind, Except.bind, hbig, if_true]
 
 theorem found_zip (o : Oracle) (crc : Bytes → Nat) (pre suf s : Bytes) (z : ZipFields) (r : Res)
     (hn : z.name.length < 65536) (hx : z.extra.length < 65536) (hnp : NoPanic o)
@@ -35,24 +66,74 @@ theorem found_zip (o : Oracle) (crc : Bytes → Nat) (pre suf s : Bytes) (z : Zi
     ∃ before prev after, prev ≤ pre.length ∧
       scan o crc (pre ++ zipHeader z ++ s ++ suf) =
         .ok (before ++ [.literal (pre.length + (zipHeader z).length - prev), .deflate r] ++ after) := by
-  sorry
+  have hsrc : pre ++ zipHeader z ++ s ++ suf = pre ++ (zipHeader z ++ (s ++ suf)) := by
+    simp only [List.append_assoc]
+  rw [hsrc] at hq ⊢
+  have hhd : ∃ t, zipHeader z = 0x50 :: 0x4b :: t := ⟨_, by rw [zipHeader]; rfl⟩
+  obtain ⟨t, ht⟩ := hhd
+  refine found_at hnp hq (Nat.le_refl _) ?_ (sg := .zip) ?_
+    (fun prev => [.literal (pre.length + (zipHeader z).length - prev), .deflate r]) ?_
+  · rw [ht]; simp
+  · have h0 := getD_pre pre (zipHeader z ++ (s ++ suf)) 0
+    have h1 := getD_pre pre (zipHeader z ++ (s ++ suf)) 1
+    rw [Nat.add_zero] at h0
+    rw [h0, h1, ht]
+    simp only [List.cons_append, List.getD_cons_zero, List.getD_cons_succ]
+    decide
+  · intro prev hp
+    refine ⟨pre.length + (zipHeader z).length + r.size, ?_⟩
+    have hd0 : (pre ++ (zipHeader z ++ (s ++ suf))).drop pre.length = zipHeader z ++ (s ++ suf) :=
+      List.drop_left
+    have he : pre.length - prev + (zipHeader z).length = pre.length + (zipHeader z).length - prev := by
+      omega
+    simp only [scanAt, hd0, probe_of_ok (parseZipStream_zipHeader o z (s ++ suf) r hn hx hacc),
+      bind, Except.bind, hbig, if_true, he]
 
 /-- IDAT: the pieces are non-empty, shorter than 2^32, their concatenation is
-    zlib header (2) ++ s ++ Adler-32 (4); what follows is not another well-formed IDAT chunk
-    (`hend`: the scanner's chunk walk stops exactly at the end of the wrapper). The signature
-    sits 4 bytes into the wrapper, so quietness is required up to there. -/
+    zlib header (2) ++ s ++ Adler-32 (4); what follows is not another IDAT chunk that fits
+    (`hend`: fewer than 12 bytes remain, or the chunk type is not IDAT, or the declared length
+    reaches past the end of the input — exactly the conditions under which the scanner's chunk
+    walk stops at the end of the wrapper). The signature sits 4 bytes into the wrapper, so
+    quietness is required up to there. -/
 theorem found_idat (o : Oracle) (crc : Bytes → Nat) (pre suf s hdr adler : Bytes) (pieces : List Bytes) (r : Res)
     (hp : ∀ p ∈ pieces, p ≠ [] ∧ p.length < 2 ^ 32) (hcrc : ∀ x, crc x < 2 ^ 32)
     (hcat : pieces.flatten = hdr ++ s ++ adler) (hhdr : hdr.length = 2) (had : adler.length = 4)
     (hne : pieces ≠ []) (hnp : NoPanic o)
-    (hend : ∀ c payload, parseIdat crc (idatWrap crc pieces ++ suf) = .ok (c, payload) →
-        c.totalChunkLength = (idatWrap crc pieces).length)
+    (hend : suf.length < 12 ∨ (suf.drop 4).take 4 ≠ idatTag ∨ suf.length < ofBe32 (suf.take 4) + 12)
     (hacc : o.verified s = .ok r) (hfull : r.size = s.length)
     (hbig : (idatWrap crc pieces).length > Gen.MIN_BLOCKSIZE)
     (hq : Quiet o crc (pre ++ idatWrap crc pieces ++ suf) (pre.length + 4) pre.length) :
     ∃ before prev after c, prev ≤ pre.length ∧
       scan o crc (pre ++ idatWrap crc pieces ++ suf) =
         .ok (before ++ [.literal (pre.length - prev), .idat c r] ++ after) := by
-  sorry
+  have hsrc : pre ++ idatWrap crc pieces ++ suf = pre ++ (idatWrap crc pieces ++ suf) := by
+    simp only [List.append_assoc]
+  rw [hsrc] at hq ⊢
+  obtain ⟨c, hc, hct⟩ := parseIdat_idatWrap crc hcrc suf hend pieces hp hne hdr s adler hcat hhdr had
+  have hhd : ∃ a b c d t, idatWrap crc pieces ++ suf = a :: b :: c :: d :: 73 :: 68 :: t := by
+    obtain ⟨p, ps, rfl⟩ := List.exists_cons_of_ne_nil hne
+    rw [idatWrap_cons]
+    exact ⟨_, _, _, _, _, by simp only [pngChunk, be32, idatTag, List.cons_append, List.nil_append]; rfl⟩
+  obtain ⟨b0, b1, b2, b3, t, ht⟩ := hhd
+  suffices h : ∃ before prev after, prev ≤ pre.length ∧
+      scan o crc (pre ++ (idatWrap crc pieces ++ suf)) =
+        .ok (before ++ (fun prev => [.literal (pre.length - prev), .idat c r]) prev ++ after) by
+    obtain ⟨before, prev, after, h1, h2⟩ := h
+    exact ⟨before, prev, after, c, h1, h2⟩
+  refine found_at hnp hq (Nat.le_add_right _ _) ?_ (sg := .idat) ?_ _ ?_
+  · rw [ht]; simp only [List.length_append, List.length_cons]; omega
+  · have h0 := getD_pre pre (idatWrap crc pieces ++ suf) 4
+    have h1 := getD_pre pre (idatWrap crc pieces ++ suf) 5
+    rw [Nat.add_assoc, h0, h1, ht]
+    simp only [List.getD_cons_zero, List.getD_cons_succ]
+    decide
+  · intro prev hp
+    refine ⟨pre.length + c.totalChunkLength, ?_⟩
+    have hd0 : (pre ++ (idatWrap crc pieces ++ suf)).drop pre.length = idatWrap crc pieces ++ suf :=
+      List.drop_left
+    have hg : pre.length + 4 ≥ 4 ∧ pre.length ≥ prev := by omega
+    have hcond : c.totalChunkLength > Gen.MIN_BLOCKSIZE ∧ r.size = s.length := ⟨by rw [hct]; exact hbig, hfull⟩
+    simp only [scanAt, Nat.add_sub_cancel, if_pos hg, hd0, probe_of_ok hc, probe_of_ok hacc,
+      bind, Except.bind, if_pos hcond]
 
 end Preflate.Proofs
